@@ -42,6 +42,8 @@ def main():
         "engines": [
             {"name": "K", "path": "/verif/check + /verif/kani", "serves_properties": sorted(claimed),
              "kind_free_text": "Kani 0.68 compiles /repo's lib.rs with harnesses mounted through the cfg(ethercrab_verif) hook; goto-cc/goto-instrument lowering; CBMC 6.11 + cadical decide each harness within its unwind bounds"},
+            {"name": "M", "path": "/verif/tools/mirslice.py", "serves_properties": ["C18"],
+             "kind_free_text": "nightly MIR dump of /repo's working tree -> straight-line slices of tx_rx_dc / configure_dc_sync -> SMT-LIB2 (bit-vector and integer encodings) -> z3 5.1 + cvc5 1.0, both must agree"},
         ],
         "checks": [],
         "not_applicable": [{"property_id": k, "reason": v} for k, v in sorted(na.items())],
@@ -55,10 +57,10 @@ def main():
             "thorough_cmd": "./check %s --tier thorough" % pid,
             "evidence_file": "/verif/evidence/%s.json" % pid,
             "replay_cmd_template": "./check %s --replay {path}" % pid,
-            "engine": "K",
+            "engine": "M" if pid == "C18" else "K",
             "level_claimed": {"category": "other", "text": "Bounded symbolic verification (not exploration, not an unbounded proof). " + text, "design_ref": ref},
             "level_note": note,
-            "technique": TECH,
+            "technique": ("symbolic evaluation of the real MIR slice, SMT (z3 + cvc5, bit-vector and integer encodings), all 64-bit values within stated preconditions" if pid == "C18" else TECH),
         })
     json.dump(m, open(os.path.join(V, "MANIFEST.json"), "w"), indent=1)
     print("claimed:", sorted(claimed), "n/a:", sorted(na))
